@@ -313,6 +313,24 @@ func (o *c05Oracle) nullField(f *c05Fld, fv reflect.Value, p string) {
 func (o *c05Oracle) sliceDefault(f *c05Fld, fv reflect.Value, p string) {
 	t := &f.T
 	def := *f.Def
+	if t.E.K == "struct" {
+		// default=[{...},{}] on a slice of structs: the field holds what a document with
+		// that array would give (the elements' own absent fields take their defaults)
+		node, ok := c05ParseJSON(def)
+		if !ok || node.T != "arr" {
+			o.unspec("absent-slice-default-unspecified")
+			return
+		}
+		o.class("absent-slice-of-structs-default")
+		if f.Opt && fv.IsValid() && fv.Len() == 0 {
+			return
+		}
+		saved := o.anc
+		o.anc = nil
+		o.value(t, nil, &node, fv, 0, p+"(default)")
+		o.anc = saved
+		return
+	}
 	if !strings.HasPrefix(def, "[") || !strings.HasSuffix(def, "]") || t.E.P || !(t.E.K == "string" || c05IsNumeric(t.E.K)) {
 		o.unspec("absent-slice-default-unspecified")
 		return
